@@ -67,7 +67,9 @@ def startOfValues (line : Str) (cols : List Str) : Except Exc (Option Int) := do
       if pt < 2 then none
       else
         let nextpt := (findChar line '.' (pt + 1)).getD line.length
-        let s := lower (slice line (pt + 1) (nextpt - 1))
+        let s0 := lower (slice line (pt + 1) (nextpt - 1))
+        -- if s.split(): s = s.split()[0]   (the sign of the next value is not an exponent sign)
+        let s := match splitWs s0 with | [] => s0 | w :: _ => w
         let exponential := s.contains 'e' || s.contains '+' || s.contains '-'
         if exponential then
           match line[pt - 2]? with
